@@ -2,8 +2,10 @@ package netsim
 
 import (
 	"errors"
+	"net"
 	"reflect"
 	"strings"
+	"time"
 
 	"github.com/insomniacslk/dhcp/dhcpv4"
 	"github.com/insomniacslk/dhcp/dhcpv6"
@@ -36,23 +38,27 @@ var builtin = []*plugins.Plugin{
 
 // Invocation is logged by the observer wrapped around every handler (built-in and synthetic).
 type Invocation struct {
-	Plugin  string
-	Index   int // position in the configured chain of its protocol (-1 unknown)
-	V6      bool
-	ReqPtr  uintptr
-	InPtr   uintptr
-	OutPtr  uintptr
-	RespNil bool
-	Stop    bool
-	Builtin bool
-	Trail   string
-	Yiaddr  []byte // v4: yiaddr of the returned response
-	Lease   int64  // v4: option 51 of the returned response in ns (-1 absent)
-	MsgType int
-	DG      int64
-	At      int64 // simulated time when the handler returned
-	Step    int64
-	Args    string
+	Plugin   string
+	Index    int // position in the configured chain of its protocol (-1 unknown)
+	V6       bool
+	ReqPtr   uintptr
+	InPtr    uintptr
+	OutPtr   uintptr
+	RespNil  bool
+	Stop     bool
+	Builtin  bool
+	Trail    string
+	Yiaddr   []byte // v4: yiaddr of the returned response
+	Lease    int64  // v4: option 51 of the returned response in ns (-1 absent)
+	MsgType  int
+	DG       int64
+	At       int64 // simulated time when the handler returned
+	Step     int64
+	Args     string
+	PD       []PDObs // v6: IA_PD options of the returned response
+	NA       []NAObs // v6: IA_NA options of the returned response
+	RespType int
+	Opts     []int // option codes of the returned response (top level)
 }
 
 var registered bool
@@ -127,12 +133,72 @@ func observe(p *plugins.Plugin, isBuiltin bool) *plugins.Plugin {
 				}
 				r, stop := h(req, resp)
 				inv.RespNil, inv.Stop, inv.OutPtr = r == nil, stop, ptrOf(r)
+				if r != nil {
+					observe6(inv, r)
+				}
 				simrt.UserLog(inv)
 				return r, stop
 			}, nil
 		}
 	}
 	return q
+}
+
+// PDObs is one IA_PD of a handler result.
+type PDObs struct {
+	IAID     [4]byte
+	Prefixes []PfxObs
+	Status   int // -1: no status option
+}
+
+// PfxObs is one IAPrefix.
+type PfxObs struct {
+	IP        net.IP
+	Len       int
+	Preferred time.Duration
+	Valid     time.Duration
+	NilPrefix bool
+}
+
+// NAObs is one IA_NA of a handler result.
+type NAObs struct {
+	IAID  [4]byte
+	Addrs []net.IP
+}
+
+func observe6(inv *Invocation, r dhcpv6.DHCPv6) {
+	m, ok := r.(*dhcpv6.Message)
+	if !ok {
+		return
+	}
+	inv.RespType = int(m.MessageType)
+	for _, o := range m.Options.Options {
+		inv.Opts = append(inv.Opts, int(o.Code()))
+	}
+	for _, pd := range m.Options.IAPD() {
+		ob := PDObs{IAID: pd.IaId, Status: -1}
+		if st := pd.Options.Status(); st != nil {
+			ob.Status = int(st.StatusCode)
+		}
+		for _, p := range pd.Options.Prefixes() {
+			po := PfxObs{Preferred: p.PreferredLifetime, Valid: p.ValidLifetime}
+			if p.Prefix == nil {
+				po.NilPrefix = true
+			} else {
+				po.IP = append(net.IP(nil), p.Prefix.IP...)
+				po.Len, _ = p.Prefix.Mask.Size()
+			}
+			ob.Prefixes = append(ob.Prefixes, po)
+		}
+		inv.PD = append(inv.PD, ob)
+	}
+	for _, na := range m.Options.IANA() {
+		ob := NAObs{IAID: na.IaId}
+		for _, a := range na.Options.Addresses() {
+			ob.Addrs = append(ob.Addrs, append(net.IP(nil), a.IPv6Addr...))
+		}
+		inv.NA = append(inv.NA, ob)
+	}
 }
 
 // ---------------------------------------------------------------------------
